@@ -23,6 +23,8 @@ FRAGS = [
                  "{{ [s, s]|join('-') }}", 0),
     ("str-conv2", "{{ s|upper }}{{ s|replace('x', 'y') }}{{ s|trim|length }}{{ rec }}"
                   "{{ s|center(9) }}{{ s|string|truncate(3) }}", 0),
+    ("format-conv", "{{ '{}|{:>4}'.format(fm, fm) }}{{ '%s' % fm }}{{ '%s-%s'|format(fm, s) }}"
+                    "{{ fm }}{{ fm|string|length }}", 0),
     ("html", "{{ h }}{{ h|e }}{{ h|string }}{{ h ~ s }}{{ [h]|join(',') }}", 0),
     ("truth", "{% if b %}T{% else %}F{% endif %}{{ b and 1 }}{{ not nb }}"
               "{{ 'x' if nb else 'y' }}{% if itl %}nonempty{% endif %}"
@@ -75,6 +77,56 @@ FRAGS = [
                        "{{ ait|first }}{{ ait|sum }}", 1),
 ]
 
+# Fragments that reach templates whose TOP-LEVEL BODY touches probe data: imported
+# / included without context (module cached per environment; data only through the
+# environment globals g_*) and imported with context (fresh module per render; data
+# through the render context).  "@@" = re-mark the fragment label after the
+# statement that may have run a module body.
+MOD_FRAGS = [
+    ("import-module-body", "{% import 'glib.j2' as G_A %}@@{{ G_A.head() }}{{ G_A.title }}"
+                           "{{ G_A.total }}{{ G_A.foot() }}", 0),
+    ("from-import-module-body", "{% from 'glib.j2' import head as h_A, label as l_A, flag as f_A %}"
+                                "@@{{ h_A(rec.a) }}{{ l_A }}{{ f_A }}", 0),
+    ("include-nocontext-body", "{% include 'incg.j2' without context %}@@{{ rec.a }}", 0),
+    ("include-nocontext-body", "{% include ['nope.j2', 'incg.j2'] ignore missing without context %}"
+                               "@@{{ fn() }}", 0),
+    ("import-with-context-body", "{% import 'libctx.j2' as C_A with context %}@@{{ C_A.cm() }}"
+                                 "{{ C_A.cv }}{{ C_A.cf }}", 0),
+    ("from-import-with-context-body", "{% from 'libctx.j2' import cm as cm_A, cv as cv_A with context %}"
+                                      "@@{{ cm_A() }}{{ cv_A }}", 0),
+    ("include-importer", "{% include 'incimp.j2' %}@@{{ s }}", 0),
+]
+
+# i18n fragments (only in environments with the i18n extension).  style: None =
+# both gettext styles, "new" / "old" = needs that calling convention.
+I18N_FRAGS = [
+    ("trans-var", "{% trans who=s %}Hello {{ who }}!{% endtrans %}"
+                  "{% trans %}Hi {{ s }} 100% sure{% endtrans %}", None),
+    ("trans-html", "{% trans u=h, w=s %}x {{ u }} y {{ w }}{% endtrans %}", None),
+    ("trans-plural", "{% trans n=rec.a, who=s %}{{ who }} has {{ n }} item{% pluralize %}"
+                     "{{ who }} has {{ n }} items{% endtrans %}"
+                     "{% trans num=rec.sub.c %}{{ num }} a{% pluralize %}{{ num }} as{% endtrans %}",
+     None),
+    ("trans-plural-var", "{% trans who=rec, k=rec.k %}{{ who }} one {{ k }}{% pluralize k %}"
+                         "{{ who }} many {{ k }}{% endtrans %}", None),
+    ("trans-context", "{% trans \"menu\" trimmed who=s %}  Open {{ who }}\n   now {% endtrans %}"
+                      "{% trans \"m2\" n=rec.a %}{{ n }} x{% pluralize %}{{ n }} xs{% endtrans %}",
+     None),
+    ("trans-format-obj", "{% trans v=fm %}f {{ v }}{% endtrans %}", None),
+    ("trans-novars", "{% trans %}plain & 100% text{% endtrans %}{{ _('direct') }}", None),
+    ("gettext-call-new", "{{ gettext('signed %(who)s', who=s) }}"
+                         "{{ _('by %(w)s and %(u)s', w=s, u=h) }}"
+                         "{{ ngettext('%(num)d of %(w)s', '%(num)d off %(w)s', rec.a, w=s) }}"
+                         "{{ pgettext('c', 'p %(w)s', w=fm) }}{{ gettext('no vars 100%%') }}"
+                         "{{ npgettext('c', '%(num)d q %(r)s', '%(num)d qs %(r)s', rec.sub.c, r=rec) }}",
+     "new"),
+    ("gettext-call-old", "{{ gettext('signed %(who)s') % {'who': s} }}"
+                         "{{ _('by %(w)s')|format(w=s) }}"
+                         "{{ ngettext('%(n)s a', '%(n)s as', rec.a) % {'n': rec.a} }}"
+                         "{{ _('x %s')|format(h) }}{{ pgettext('c', 'p %(w)s') % {'w': fm} }}",
+     "old"),
+]
+
 LIB = ("{% macro show(p) %}<{{ p.a }}|{{ p.sub.d }}>{% endmacro %}"
        "{% macro each(xs) %}{% for x in xs %}{{ x }};{% endfor %}{% endmacro %}"
        "{% macro wrap() %}({{ caller() }}){% endmacro %}")
@@ -85,20 +137,85 @@ BASE = ("{% import 'lib.j2' as lib %}<base>{% block body %}{{ mark('base-block')
         "{{ mark('self-block') }}{{ self.foot() }}</base>")
 
 
+LIBCTX = ("{{ mark('mod:libctx') }}{% set cv = rec.a %}{% set cf = fn() %}"
+          "{% macro cm() %}{{ cv }}{{ cf }}{{ s }}{% endmacro %}{{ rec.b }}")
+INCIMP = ("{% from 'glib.j2' import head, title %}{{ mark('include-importer') }}{{ head(rec.a) }}"
+          "{{ title }}")
+
+
+def gen_modlib(rng, is_async):
+    """glib.j2: a library whose top-level body reads probe data through the
+    environment globals (variables title/total/label/flag/item, macros head/foot
+    that use them), statements in random order."""
+    sets = ["{% set title = g_fn() %}", "{% set total = g_it|sum %}",
+            "{% set label = g_rec.a ~ '/' ~ g_s %}", "{% set flag = 'on' if g_b else 'off' %}",
+            "{% set item = g_rec['k'] %}"]
+    if is_async:
+        sets[0] = "{% set title = g_afn() %}"
+    rng.shuffle(sets)
+    extra = ["{% macro head(p='') %}<{{ title }}|{{ total }}|{{ label }}|{{ p }}>{% endmacro %}",
+             "{% macro foot() %}[{{ flag }}{{ item }}{{ g_fn() }}]{% endmacro %}",
+             "{{ g_rec.b }}"]
+    if rng.random() < 0.4:
+        extra.append("{% import 'lib.j2' as inner %}")
+    if rng.random() < 0.4:
+        extra.append("{% for x in g_it %}{{ x }}{% endfor %}")
+    parts = list(sets)
+    for e in extra:
+        parts.insert(rng.randint(0, len(parts)), e)
+    return "{{ mark('mod:glib') }}" + "".join(parts)
+
+
+def gen_modinc(rng, is_async):
+    """incg.j2: included WITHOUT context, body output built from global probes."""
+    pool = ["{{ g_fn() }}", "{{ g_rec.a }}", "{% for x in g_it %}{{ x }},{% endfor %}", "{{ g_s }}",
+            "{% if g_b %}T{% endif %}", "{{ g_rec['k'] }}",
+            "{% import 'glib.j2' as GI %}{{ mark('mod:incg') }}{{ GI.head() }}{{ GI.item }}"]
+    if is_async:
+        pool.append("{{ g_afn() }}")
+    k = rng.randint(3, len(pool))
+    picked = rng.sample(pool, k)
+    return "{{ mark('mod:incg') }}pre" + "".join(picked) + "post"
+
+
+def gen_i18n(rng):
+    if rng.random() < 0.4:
+        return None
+    return {"newstyle": rng.random() < 0.6,
+            "callables": rng.choice(["null", "custom", "custom", "lazy"])}
+
+
 def gen_case(rng, is_async):
+    i18n = gen_i18n(rng)
     pool = [f for f in FRAGS if is_async or not f[2]]
-    tpls = {"lib.j2": LIB, "inc.j2": INC, "incnc.j2": INCNC, "base.j2": BASE}
+    ipool = []
+    if i18n:
+        style = "new" if i18n["newstyle"] else "old"
+        ipool = [(lab, src, 0) for lab, src, st in I18N_FRAGS if st in (None, style)]
+    tpls = {"lib.j2": LIB, "inc.j2": INC, "incnc.j2": INCNC, "base.j2": BASE,
+            "glib.j2": gen_modlib(rng, is_async), "incg.j2": gen_modinc(rng, is_async),
+            "libctx.j2": LIBCTX, "incimp.j2": INCIMP}
     mains = []
     labels = {}
     for mi in range(3):
         nf = rng.randint(2, 4)
-        frags = [rng.choice(pool) for _ in range(nf)]
+        frags = []
+        for _ in range(nf):
+            c = rng.random()
+            if ipool and c < 0.4:
+                frags.append(rng.choice(ipool))
+            elif c > 0.8:
+                frags.append(rng.choice(MOD_FRAGS))
+            else:
+                frags.append(rng.choice(pool))
         # unique macro / variable names per use
         body = ""
         labs = []
         for fi, (lab, src, _) in enumerate(frags):
             suffix = "%d_%d" % (mi, fi)
-            body += "{{ mark('%s') }}" % lab + src.replace("_A", "_A" + suffix).replace("_B", "_B" + suffix)
+            mk = "{{ mark('%s') }}" % lab
+            body += mk + src.replace("_A", "_A" + suffix).replace("_B", "_B" + suffix) \
+                .replace("@@", mk)
             labs.append(lab)
         name = "m%d.j2" % mi
         if rng.random() < 0.35:
@@ -112,4 +229,4 @@ def gen_case(rng, is_async):
         mains.append(name)
         labels[name] = labs
     return {"tpls": tpls, "mains": mains, "labels": labels, "is_async": bool(is_async),
-            "autoescape": rng.random() < 0.5}
+            "autoescape": rng.random() < 0.5, "i18n": i18n}
